@@ -341,6 +341,7 @@ func VH_C18_Text(p []int) {
 	}
 	vhAssertCfgSame(snap, vhSnapCfg(cfg), "others")
 	vhAssertContent(s, pre.model, "content")
+	vhAssertUnlocked(s, "after")
 	verifReach("end")
 }
 
@@ -429,6 +430,7 @@ func VH_C18_FifoAux(p []int) {
 	verifAssert(s.Auxiliary() != nil, "aux-default-alloc")
 	verifAssert(s.Auxiliary().Len() == 0, "aux-default-empty")
 	vhAssertContent(s, pre.model, "content")
+	vhAssertUnlocked(s, "after")
 	verifReach("end")
 }
 
